@@ -34,6 +34,11 @@ def mask_entries(ctx):
                 continue
             mask = [vals_pos[(i + k) % 3] if p else vals_neg[(i + k) % 3] for i, p in enumerate(pat)]
             k += 1
+            if k % 4 == 1:
+                # integer-valued masks (python ints -> int64 tensor), negative entries mean "identity" as well
+                mask = [(1 + (i + k) % 3) if p else -((i + k) % 3) for i, p in enumerate(pat)]
+            elif k % 4 == 2:
+                mask = [bool(p) for p in pat] if k % 8 == 2 else [int(p) for p in pat]
             fams = list(cps) if (k % 3 == 0 or not ctx.quick()) else [list(cps)[k % 4]]
             for img in (False, True):
                 if img and (n > 3 or (ctx.quick() and k % 2)):
